@@ -12,7 +12,8 @@ let entries = [|
   "ParseControlFile"; "ParseWALFile"; "ParseIndexFile"; "ParseSequenceFile"; "IsSequenceFile"; "ParseRelMapFile";
   "VerifyPageChecksum"; "VerifyFileChecksums"; "ParseBlockInfo"; "FormatBinaryDump";
   "ParseBlockRange"; "quoteIdent"; "quoteLiteral"; "formatSQLValue"; "mapToJSON"; "formatCSVValue"; "SearchInDump"; "ToSQLCSV";
-  "ReadDeletedRows"; "ReadRowsWithDeleted"; "parseBlockRefs"; "parseWALPage"; "detectIndexType" |]
+  "ReadDeletedRows"; "ReadRowsWithDeleted"; "parseBlockRefs"; "parseWALPage"; "detectIndexType";
+  "parseSpecial"; "parseMeta"; "parseIndexPage"; "parseXLogRecord"; "parseSequenceTuple" |]
 
 let guard_lens = [| 0; 1; 2; 3; 4; 5; 7; 8; 17; 18; 19; 20; 22; 23; 24; 39; 40; 295; 296; 297; 511; 512; 8191; 8192; 8193 |]
 let boundary32 = [| 0; 1; 0x7ffe; 0x7fff; 0x8000; 0xfffe; 0xffff; 0x10000; 0x7fffffff; 0x80000000; 0xffffffff; 0x3fffffff; 0x40000000 |]
@@ -83,6 +84,28 @@ let valid_relmap r =
   enc_relmap { sp_magic = zi 0x592717; sp_count = zi n; sp_maps = List.init n (fun _ -> (z_of_zarith (rbits r 32), z_of_zarith (rbits r 32)));
                sp_slack = rbytes r (8 * (62 - n)); sp_crc = z_of_zarith (rbits r 32); sp_pad = rbytes r 4 }
 
+(* ---- corpus harvested by bin/check from the other properties' drivers ($VERIF_CORPUS: entry \t hex \t param \t origin):
+   valid encodings written by their Coq reference writers and their model-directed malformed inputs ---- *)
+let corpus : (string, (string * int * string) array) Hashtbl.t = Hashtbl.create 64
+let () =
+  match Sys.getenv_opt "VERIF_CORPUS" with
+  | None | Some "" -> ()
+  | Some path ->
+    (try
+       let ic = open_in path in
+       let tmp : (string, (string * int * string) list) Hashtbl.t = Hashtbl.create 64 in
+       (try while true do
+            match String.split_on_char '\t' (input_line ic) with
+            | [ e; h; p; o ] ->
+              let l = try Hashtbl.find tmp e with Not_found -> [] in
+              Hashtbl.replace tmp e ((h, (try int_of_string p with _ -> 0), o) :: l)
+            | _ -> ()
+          done with End_of_file -> close_in ic);
+       Hashtbl.iter (fun e l -> Hashtbl.replace corpus e (Array.of_list (List.rev l))) tmp
+     with Sys_error _ -> ())
+let unhex (h : string) : byte list =
+  List.init (String.length h / 2) (fun i -> byte_of_int (int_of_string ("0x" ^ String.sub h (2 * i) 2)))
+
 let strs = [| ""; "a"; "0"; ":"; "1:2"; "-1"; "9999999999999999999999"; "1:"; ":1"; "+"; "a:b"; "'"; "\""; "$str$"; "\\"; "\n"; "x;DROP TABLE y"; "(?i"; "[a-"; "\xff\xfe"; "select" |]
 
 let gen_case r k =
@@ -94,7 +117,8 @@ let gen_case r k =
        | 0 -> (bytes_of_string (pick r strs), "string_corpus")
        | 1 -> (bytes_of_string (pick r strs ^ pick r strs ^ pick r strs), "string_mix")
        | _ -> (rbytes r (rint r 40), "string_random"))
-    else match rint r 7 with
+    else match rint r 8 with
+      | 7 -> (rbytes r (rint r 26), "random_short")      (* every length 0..25: the small guards (4, 6, 8, 12, 16, 18, 24) from both sides *)
       | 0 -> (rbytes r (pick r guard_lens), "random_guardlen")
       | 1 -> (rbytes r (rint r 300), "random_small")
       | 2 -> (pageish r, "pageish")
@@ -103,7 +127,7 @@ let gen_case r k =
       | 5 -> (corrupt r (if rbool r then valid_relmap r else enc_tuple (valid_tuple r)), "corrupt_small")
       | _ -> (let p = pageish r in List.filteri (fun i _ -> i < pick r [| 8191; 4096; 100 |]) p, "pageish_truncated") in
   let tl = match rint r 3 with 0 -> [] | 1 -> List.init 32 (fun _ -> byte_of_int 0xff) | _ -> rbytes r 16 in
-  emit ~fn:"NoPanic" ~tag:(e ^ "/" ^ tag) ~s:"ok" ~m:"ok" [ e; hexf v; hexf tl; string_of_int (pick r [| 0; 1; 16; 17; 23; 25; 26; 114; 600; 602; 650; 700; 869; 1000; 1007; 1009; 1043; 1082; 1114; 1186; 1231; 1266; 1560; 1700; 2950; 3802; 3904; 3906; 3926; 99999 |]) ]
+  emit ~fn:"NoPanic" ~tag:(e ^ "." ^ tag) ~s:"ok" ~m:"ok" [ e; hexf v; hexf tl; string_of_int (pick r [| 0; 1; 16; 17; 23; 25; 26; 114; 600; 602; 650; 700; 869; 1000; 1007; 1009; 1043; 1082; 1114; 1186; 1231; 1266; 1560; 1700; 2950; 3802; 3904; 3906; 3926; 99999 |]) ]
 
 (* locality on pages and tuples (theorems C10_page_local / C10_tuple_local) *)
 let loc_case r k =
@@ -123,7 +147,40 @@ let loc_case r k =
       emit ~fn:"LocalityTuple" ~tag:"locality_tuple" ~s:"ok" ~m:"ok" [ hexf img; string_of_int off; string_of_int len; hexf (rbytes r len) ]
   end
 
+(* every harvested input as it is (the other drivers' guard-directed malformed inputs included), and damaged *)
+let corpus_case r k =
+  let e = entries.(k mod Array.length entries) in
+  match Hashtbl.find_opt corpus e with
+  | None -> ()
+  | Some arr when Array.length arr = 0 -> ()
+  | Some arr ->
+    let (h, p, origin) = arr.((k / Array.length entries) mod Array.length arr) in
+    let v = unhex h in
+    let v, tag = if rint r 3 = 0 then (v, "corpus_asis") else (corrupt r v, "corpus_corrupt") in
+    let tl = match rint r 3 with 0 -> [] | 1 -> List.init 32 (fun _ -> byte_of_int 0xff) | _ -> rbytes r 16 in
+    emit ~fn:"NoPanic" ~tag:(e ^ "." ^ tag ^ "." ^ origin) ~s:"ok" ~m:"ok" [ e; hexf v; hexf tl; string_of_int p ]
+
+(* value locality (theorem C10_value_local): a row (int4, text, int8, text, name-like fixed 6) as heap_fill_tuple stores
+   it; the payload of one attribute is overwritten by other bytes of the same length; all OTHER columns must decode alike *)
+let vl_case r k =
+  let col name typid len al = { c_name = bytes_of_string name; c_typid = zi typid; c_len = zi len; c_num = zi 0; c_align = zi (Char.code al) } in
+  let cols = [ col "a" 23 4 'i'; col "b" 25 (-1) 'i'; col "c" 20 8 'd'; col "d" 25 (-1) 'i'; col "e" 829 6 'i' ] in
+  let text () = if rbool r then DShort (rbytes r (rrange r 1 126)) else DLong (rbytes r (rrange r 1 300)) in
+  let ds = [ DFixed (rbytes r 4); (if rint r 5 = 0 then DNull else text ()); DFixed (rbytes r 8); text (); DFixed (rbytes r 6) ] in
+  let j = rint r 5 in
+  let dj = List.nth ds j in
+  let same = function
+    | DNull -> DNull
+    | DFixed b -> DFixed (rbytes r (List.length b)) | DShort b -> DShort (rbytes r (List.length b))
+    | DLong b -> DLong (rbytes r (List.length b)) | d -> d in
+  let ds' = List.mapi (fun i d -> if i = j then same dj else d) ds in
+  let bm = if has_nulls ds then hexf (bitmap_of ds) else "nil" in
+  emit ~fn:"LocalityValue" ~tag:(Printf.sprintf "locality_value_col%d" j) ~s:"ok" ~m:"ok"
+    [ bm; hexf (fill (zi 0) cols ds); hexf (fill (zi 0) cols ds'); string_of_int j ]
+
 let gen seed n =
   for k = 0 to n - 1 do gen_case (rng_for seed k) k done;
+  for k = 0 to n / 3 do corpus_case (rng_for seed (7000000 + k)) k done;
+  for k = 0 to n / 30 do vl_case (rng_for seed (9000000 + k)) k done;
   for k = 0 to n / 10 do loc_case (rng_for seed (5000000 + k)) k done
 let () = main gen
